@@ -23,3 +23,15 @@ WRAP int w_vi_move_assign(VI* d, VI* s) { try { *d = std::move(*s); return 0; } 
 WRAP int w_vi_reset(VI* s) { try { s->reset(); return 0; } catch (...) { return 1; } }
 WRAP uint64_t w_vi_n(const VI* s) { return s->get_n(); }
 WRAP uint32_t w_vi_num_samples(const VI* s) { return s->get_num_samples(); }
+// state injection: turn a warm-up sketch that holds exactly k items (h_ == k_, r_ == 0) into the resting state update() leaves behind once n > k
+// (H region 0..h_, the gap slot h_ holding a constructed stale item, R region h_+1..k_, filled_data_ == true): the last H item becomes the single
+// R sample and a (k+1)-th item is constructed behind it, exactly the layout transition_from_warmup() + downsampling produce for r_ == 1.
+WRAP int w_vi_inject_estimation(VI* s, int32_t extra) {
+  if (s->h_ != s->k_ || s->r_ != 0 || s->k_ < 2 || s->curr_items_alloc_ < s->k_ + 1) return 1;
+  new (&s->data_[s->k_]) item(extra);
+  s->h_ = s->k_ - 1; s->r_ = 1; s->m_ = 0; s->n_ = s->k_ + 1;
+  s->total_wt_r_ = s->weights_[s->h_] + 1.0; s->weights_[s->h_] = -1.0; s->weights_[s->k_] = -1.0;
+  s->filled_data_ = true;
+  return 0;
+}
+WRAP uint32_t w_vi_alloc(const VI* s) { return s->curr_items_alloc_; }
